@@ -77,10 +77,12 @@ class Model:
 
         logger.debug("step, model time: %4d %s", step, self.timer.time)
 
+        # Remove the particles that died in the previous step first, all
+        # modules then see the same set of particles during the whole step
+        self.state.compactify()
         self.release.update()
         self.force.update()
 
-        # self.state.compactify()
         if step >= 0:
             self.output.update()
 
